@@ -65,6 +65,11 @@ def _kinds():
     }
 
 
+def _kind(kind):
+    """kind names may carry a world variant: 'int@default' = the value under test is the field's untouched empty default"""
+    return kind.split("@")[0]
+
+
 DICT_KINDS = {
     "str-int": {
         "keys": ["a", " A ", "b"],
@@ -129,17 +134,24 @@ def _dict_field_int():
 class ListWorld:
     def __init__(self, kind):
         from cincoconfig import Schema, ListField
-        k = _kinds()[kind]
+        variant = kind.split("@")[1] if "@" in kind else None
+        k = _kinds()[_kind(kind)]
         self.k = k
         schema = Schema()
-        schema.l = ListField(k["field"]())
+        if variant == "default":
+            schema.l = ListField(k["field"](), default=list)         # an empty default produced by a factory
+        elif variant == "default-literal":
+            schema.l = ListField(k["field"](), default=[])
+        else:
+            schema.l = ListField(k["field"]())
         schema.m = ListField(k["field"]())
         schema.w = ListField(k["other"]())
         self.schema = schema
         self.cfg = schema()
         self.cfg2 = schema()
-        self.cfg.l = []
-        self.proxy = self.cfg.l
+        if variant is None:
+            self.cfg.l = []
+        self.proxy = self.cfg.l          # with a variant: the default value as installed at construction, never assigned
         self.model = []
 
     def resolve(self, spec):
@@ -163,14 +175,18 @@ class ListWorld:
 class DictWorld:
     def __init__(self, kind):
         from cincoconfig import Schema, DictField, StringField, IntField
-        self.k = DICT_KINDS[kind]
+        variant = kind.split("@")[1] if "@" in kind else None
+        self.k = DICT_KINDS[_kind(kind)]
         schema = Schema()
-        schema.d = _dict_field(kind)
+        schema.d = _dict_field(_kind(kind))
+        if variant == "default":
+            schema.d._default = dict
         schema.e = DictField(key_field=StringField(), value_field=IntField())
         self.schema = schema
         self.cfg = schema()
         self.cfg2 = schema()
-        self.cfg.d = {}
+        if variant is None:
+            self.cfg.d = {}
         self.proxy = self.cfg.d
         self.model = {}
 
@@ -206,7 +222,7 @@ def _iterables(contents, full=True):
 
 
 def list_ops(kind):
-    k = _kinds()[kind]
+    k = _kinds()[_kind(kind)]
     raw = k["raw"]
     contents = [[], [raw[0]], [raw[1], raw[-1]]]
     ops = []
@@ -253,8 +269,8 @@ def list_ops(kind):
         ops.append(["delitem", i])
         ops.append(["getitem", i])
     ops += [["sort", False], ["sort", True], ["reverse"], ["clear"], ["len"], ["list"], ["iter"],
-            ["reversed"], ["eq_list"], ["bool"]]
-    if kind == "scale":
+            ["reversed"], ["eq_list"], ["bool"], ["validate_identity"]]
+    if _kind(kind) == "scale":
         # the item validator is deliberately not idempotent: what "the normalised form" of an item taken from a typed list
         # of the same field is, is not determined by the statement, so those argument shapes are left out for this kind
         ops = [op for op in ops if not any(isinstance(a, str) and a in ("proxy-same", "proxy-othercfg") for a in op[1:3])]
@@ -262,7 +278,7 @@ def list_ops(kind):
 
 
 def dict_ops(kind):
-    k = DICT_KINDS[kind]
+    k = DICT_KINDS[_kind(kind)]
     keys, vals = k["keys"], k["vals"]
     ops = []
     for key in keys:
@@ -302,7 +318,7 @@ def dict_ops(kind):
     ops.append(["update", "kw", None, {"a": vals[0]}])
     ops.append(["update", "kw", None, {"b": vals[1], "a": vals[1]}])
     ops += [["popitem"], ["clear"], ["copy"], ["len"], ["keys"], ["values"], ["items"], ["eq_dict"],
-            ["iter"], ["bool"]]
+            ["iter"], ["bool"], ["validate_identity"]]
     return ops
 
 
@@ -324,6 +340,12 @@ def apply_list(target, op, norm, resolve):
         if getattr(it, "item_field", None) is getattr(norm, "same_field", object()):
             return list(it)        # a typed list of the very same item field already holds normal forms
         return [norm(x) for x in it]
+    if name == "validate_identity":      # a whole-configuration validation pass leaves the value object in place
+        if norm is None:
+            target.cfg.validate()
+            target.cfg.load_tree({})
+            return target.cfg.l is target
+        return True
     if name == "assign":          # the whole value is assigned through the owning configuration
         if norm is None:
             target.cfg.l = dec(op[2])
@@ -413,6 +435,12 @@ def apply_dict(target, op, norms, resolve):
             it = list(it.items())
         return [(kn(k), vn(v)) for k, v in it]
 
+    if name == "validate_identity":
+        if norms is None:
+            target.cfg.validate()
+            target.cfg.load_tree({})
+            return target.cfg.d is target
+        return True
     if name == "assign":
         if norms is None:
             target.cfg.d = dec(op[2])
@@ -484,13 +512,13 @@ def _outcome(fn):
 # ---------------------------------------------------------------------------------------------
 def model_states(container, kind, maxlen):
     if container == "list":
-        k = _kinds()[kind]
+        k = _kinds()[_kind(kind)]
         ops = [["append", v] for v in k["raw"]] + [["insert", 0, v] for v in k["raw"][:2]] + [["pop", None]]
         norm = k["norm"]
         start = []
         app = lambda m, op: apply_list(m, op, norm, None)  # noqa
     else:
-        k = DICT_KINDS[kind]
+        k = DICT_KINDS[_kind(kind)]
         ops = [["setitem", key, v] for key in k["keys"] for v in k["vals"]] + \
               [["setitem", key, None] for key in k["keys"][:1]] + [["delitem", "a"], ["delitem", "b"]]
         norms = (k["knorm"], k["vnorm"])
@@ -523,16 +551,16 @@ def model_states(container, kind, maxlen):
 # jobs
 # ---------------------------------------------------------------------------------------------
 def bounds(tier):
-    return {"list_kinds": ["int", "str", "float", "scale"] if tier == "thorough" else ["int", "str", "scale"],
+    return {"list_kinds": (["int", "str", "float", "scale"] if tier == "thorough" else ["int", "str", "scale"]) + ["int@default", "str@default-literal"],
             "list_maxlen": {"int": 5 if tier == "thorough" else 3, "str": 6 if tier == "thorough" else 3, "float": 4, "scale": 2},
-            "dict_kinds": ["str-int", "str-any", "anyv-anyv"], "dict_maxlen": 3 if tier == "thorough" else 2}
+            "dict_kinds": ["str-int", "str-any", "anyv-anyv", "str-int@default"], "dict_maxlen": 3 if tier == "thorough" else 2}
 
 
 def jobs(tier):
     b = bounds(tier)
     out = []
     for kind in b["list_kinds"]:
-        states = model_states("list", kind, b["list_maxlen"][kind])
+        states = model_states("list", kind, b["list_maxlen"][_kind(kind)])
         nchunk = 24 if tier == "thorough" else 8
         for c in range(nchunk):
             chunk = states[c::nchunk]
@@ -583,6 +611,12 @@ def _check_transition(ctx, container, kind, hist, op):
     W = ListWorld if container == "list" else DictWorld
     w = W(kind)
     k = w.k
+    base0 = "C17|%s|%s|" % (container, kind)
+    if type(w.proxy).__name__ != ("ListProxy" if container == "list" else "DictProxy"):
+        ctx.case((kind, "world"), "world:untyped", True)
+        ctx.violation(base0 + "value-not-typed", "the value of the typed field (as installed at construction) is a plain %s" % type(w.proxy).__name__,
+                      {"container": container, "kind": kind, "hist": hist, "op": op, "job": "%s/%s" % (container, kind)})
+        return
     if container == "list":
         norm = lambda x: k["norm"](x)  # noqa
         norm.same_field = w.proxy.item_field
